@@ -491,6 +491,7 @@ pub fn quick_level_cap(prop: &str) -> u64 {
         "C06" => 140_000.0,
         "C02" => 180_000.0,
         "C07" => 400_000.0,
+        "C19" => 70_000.0,
         _ => 120_000.0,
     };
     (base * scale) as u64
